@@ -181,6 +181,22 @@ func TestC10_SlowConsumers(t *testing.T) {
 				}
 			}
 			sent += n
+			// "never blocks the controller, the caches, the publishers": with every goroutine parked, none
+			// may be parked inside a hand-over of an event towards a consumer (a publisher or the
+			// controller waiting in send(), a distribute loop) - however full the stalled ones' buffers are
+			if len(victims)+len(stalledFiltered) > 0 {
+				if waitQuiescent(wedgeBoundNow()) {
+					if bs := blockedSenders(); len(bs) > 0 {
+						time.Sleep(200 * time.Microsecond)
+						if waitQuiescent(wedgeBoundNow()) {
+							if bs2 := blockedSenders(); len(bs2) > 0 {
+								w.fail("with %d consumers not reading, a goroutine of the library is blocked while handing an event on (after %d events of the stream):\n%s", len(victims)+len(stalledFiltered), sent, bs2[0])
+							}
+						}
+					}
+					statLabel("C10", "quiescent_points_checked_for_blocked_senders", 1)
+				}
+			}
 			w.checkQuiet() // healthy nodes only: caches current, mirrors exact, barrier completes
 			cachesCurrent()
 			// a filtered subscription nobody reads is refiltered: the call must be taken, its cache must follow
